@@ -271,6 +271,7 @@ class Module:
         s.globals = {}
         s.funcs = {}
         s.order = []
+        s.meta = {}
 
 LINKAGE = {'private','internal','available_externally','linkonce','weak','common','appending','extern_weak',
            'linkonce_odr','weak_odr','external','dso_local','dso_preemptable','hidden','protected','default',
@@ -294,7 +295,11 @@ def parse_module(text):
         i += 1
         if not line.strip():
             continue
-        if line.startswith(('source_filename', 'target ', 'attributes ', '!', '$')):
+        if line.startswith('!'):
+            mm = re.match(r'^!(\d+) = (.*)$', line)
+            if mm: mod.meta[int(mm.group(1))] = mm.group(2)
+            continue
+        if line.startswith(('source_filename', 'target ', 'attributes ', '$')):
             continue
         if line.startswith('%') and ' = type ' in line:
             toks = lex(line)
@@ -346,6 +351,7 @@ def parse_global(mod, line):
 
 FN_ATTR_WORDS = None
 def parse_func_header(mod, line, defined):
+    line = re.sub(r'![A-Za-z_.]+ !\d+', '', line)
     toks = lex(line)
     p = P(toks, mod)
     p.next()  # define/declare
@@ -472,7 +478,14 @@ FMF = {'fast','nnan','ninf','nsz','arcp','contract','afn','reassoc'}
 
 def parse_ins(mod, l):
     if 'llvm.experimental.noalias.scope.decl' in l or '@llvm.dbg.' in l:
-        return Ins(op='nop', dst=None)
+        return Ins(op='nop', dst=None, dbg=None, loopmd=None)
+    _dbg = re.search(r'!dbg !(\d+)', l); _lp = re.search(r'!llvm\.loop !(\d+)', l)
+    ins = _parse_ins(mod, l)
+    ins.dbg = int(_dbg.group(1)) if _dbg else None
+    ins.loopmd = int(_lp.group(1)) if _lp else None
+    return ins
+
+def _parse_ins(mod, l):
     toks = drop_meta(lex(l))
     p = P(toks, mod)
     dst = None
@@ -607,6 +620,7 @@ class Emitter:
         s.struct_done = set()
         s.helpers = set()
         s.out = []
+        s.loops = []
 
     def resolve(s, t):
         while isinstance(t, TNamed):
@@ -946,6 +960,37 @@ class FnCtx:
         if b.startswith('"'): b = b[1:-1]
         return 'L_' + re.sub(r'[^A-Za-z0-9_]', '_', b)
 
+def md_scope_sub(mod, n, depth=0):
+    """follow scope chain of metadata node n to its DISubprogram; returns (name, file, line)"""
+    t = mod.meta.get(n)
+    if t is None or depth > 50: return None
+    if 'DISubprogram(' in t:
+        nm = re.search(r'name: "([^"]*)"', t); fl = re.search(r'file: !(\d+)', t); ln = re.search(r'line: (\d+)', t)
+        fn = None
+        if fl:
+            ft = mod.meta.get(int(fl.group(1)), '')
+            m2 = re.search(r'filename: "([^"]*)"', ft); fn = m2.group(1).split('/')[-1] if m2 else None
+        return (nm.group(1) if nm else '?', fn, int(ln.group(1)) if ln else 0)
+    m = re.search(r'scope: !(\d+)', t)
+    if m: return md_scope_sub(mod, int(m.group(1)), depth+1)
+    return None
+
+def loop_source(mod, ins):
+    """(subprogram, file, line) of the source loop a back-edge belongs to"""
+    cands = []
+    if getattr(ins, 'loopmd', None) is not None:
+        t = mod.meta.get(ins.loopmd, '')
+        for r in re.findall(r'!(\d+)', t):
+            tt = mod.meta.get(int(r), '')
+            if 'DILocation(' in tt: cands.append(int(r)); break
+    if getattr(ins, 'dbg', None) is not None: cands.append(ins.dbg)
+    for c in cands:
+        t = mod.meta.get(c, '')
+        ln = re.search(r'line: (\d+)', t)
+        sub = md_scope_sub(mod, c)
+        if sub: return (sub[0], sub[1], int(ln.group(1)) if ln else 0)
+    return ('?', None, 0)
+
 INTRINSIC_SKIP = ('llvm.lifetime.', 'llvm.dbg.', 'llvm.assume', 'llvm.experimental.noalias', 'llvm.invariant.')
 
 def emit_function(em, f, lines):
@@ -987,6 +1032,8 @@ def emit_function(em, f, lines):
             else:
                 raise Exception('phi: no incoming from %s in %s' % (frm, to))
         return ' '.join(out)
+    fc.bindex = {lb: i for i, (lb, _) in enumerate(f.blocks)}
+    fc.cname = em.gname(f.name)
     for (lb, inss) in f.blocks:
         lines.append(' %s: ;' % fc.label(lb))
         for ph in phis.get(lb, []):
@@ -1124,6 +1171,10 @@ def emit_ins(em, fc, lb, ins, L, phi_moves):
             if ins.fty is None:
                 fnm = '((%s)%s)' % (em.fptr_type(TFunc(ins.ty, [a[0] for a in ins.args], False)), fnm)
         args = ', '.join(cv(av, at) for at, av in ins.args)
+        if cal[0] == 'global' and cal[1] == '@vf_assert' and ins.args[1][1][0] == 'int':
+            L.append('  VF_ASSERT_AT(%s, %d);' % (cv(ins.args[0][1], ins.args[0][0]), ins.args[1][1][1])); return
+        if cal[0] == 'global' and cal[1] == '@vf_witness':
+            L.append('  VF_WITNESS();'); return
         if nm_is_mem(cal):
             args = ', '.join(cv(av, at) for at, av in ins.args[:3])
         if d:
@@ -1134,16 +1185,35 @@ def emit_ins(em, fc, lb, ins, L, phi_moves):
         if ins.v is None: L.append('  return;')
         else: L.append('  return %s;' % cv(ins.v, ins.ty))
     elif op == 'br':
+        def go(t):
+            mark = ''
+            if fc.bindex[t] <= fc.bindex[lb]:
+                src = loop_source(em.mod, ins)
+                em.loops.append({'cfunc': fc.cname, 'src': src[0], 'file': src[1], 'line': src[2]})
+                mark = ' /*@LOOP:%d*/' % (len(em.loops) - 1)
+            return 'goto %s;%s' % (fc.label(t), mark)
         if ins.c is None:
-            L.append('  %s goto %s;' % (phi_moves(lb, ins.t), fc.label(ins.t)))
+            L.append('  %s' % phi_moves(lb, ins.t)); L.append('  %s' % go(ins.t))
         else:
-            L.append('  if (%s) { %s goto %s; } else { %s goto %s; }' % (cv(ins.c, TInt(1)), phi_moves(lb, ins.t), fc.label(ins.t), phi_moves(lb, ins.f), fc.label(ins.f)))
+            L.append('  if (%s) { %s' % (cv(ins.c, TInt(1)), phi_moves(lb, ins.t)))
+            L.append('    %s' % go(ins.t))
+            L.append('  } else { %s' % phi_moves(lb, ins.f))
+            L.append('    %s' % go(ins.f))
+            L.append('  }')
     elif op == 'switch':
+        def go(t):
+            mark = ''
+            if fc.bindex[t] <= fc.bindex[lb]:
+                src = loop_source(em.mod, ins)
+                em.loops.append({'cfunc': fc.cname, 'src': src[0], 'file': src[1], 'line': src[2]})
+                mark = ' /*@LOOP:%d*/' % (len(em.loops) - 1)
+            return 'goto %s;%s' % (fc.label(t), mark)
         L.append('  switch (%s) {' % cv(ins.v, ins.ty))
-        seen = set()
         for (cvv, l2) in ins.cases:
-            L.append('    case %s: { %s goto %s; }' % (cv(cvv, ins.ty), phi_moves(lb, l2), fc.label(l2)))
-        L.append('    default: { %s goto %s; }' % (phi_moves(lb, ins.d), fc.label(ins.d)))
+            L.append('    case %s: { %s' % (cv(cvv, ins.ty), phi_moves(lb, l2)))
+            L.append('      %s' % go(l2)); L.append('    }')
+        L.append('    default: { %s' % phi_moves(lb, ins.d))
+        L.append('      %s' % go(ins.d)); L.append('    }')
         L.append('  }')
     elif op == 'nop':
         pass
@@ -1239,10 +1309,17 @@ def translate(text, opts=None):
     for td in raws: out.append(td[1])
     out.append('#include "vf_rt.h"')
     out += protos
+    out.append('#include "vf_env.h"')
     out += gdecl
     out += gdef
     out += body
-    return '\n'.join(out) + '\n'
+    text = '\n'.join(out) + '\n'
+    if opts is not None and 'loops_out' in opts:
+        for i, ln in enumerate(text.split('\n'), 1):
+            m = re.search(r'/\*@LOOP:(\d+)\*/', ln)
+            if m: em.loops[int(m.group(1))]['cline'] = i
+        opts['loops_out'].extend(em.loops)
+    return text
 
 if __name__ == '__main__':
     import os
@@ -1250,4 +1327,8 @@ if __name__ == '__main__':
     st = {}
     for kv in filter(None, os.environ.get('LL2C_STUBS', '').split(',')):
         k, v = kv.split('='); st[k] = v
-    sys.stdout.write(translate(src, {'stubs': st}))
+    loops = []
+    sys.stdout.write(translate(src, {'stubs': st, 'loops_out': loops}))
+    if len(sys.argv) > 2:
+        import json
+        json.dump(loops, open(sys.argv[2], 'w'), indent=0)
